@@ -3,3 +3,4 @@ import Tcell.Model.Cell
 import Tcell.Model.CellOps
 import Tcell.Props.C08
 import Tcell.Props.C19
+import Tcell.Props.C19Page
